@@ -57,8 +57,10 @@ def judge_recipe(case, col=None):
         oc = diff.compile_recipe(recipe, cfg)
         if oc.teal is None:
             if col:
-                col.cls("gen:not-compiled")
+                col.cls("gen:not-compiled" if not recipe.get("illtyped") else "ill-typed:rejected-as-it-should")
             continue
+        if recipe.get("illtyped") and col:
+            col.cls("ill-typed:ACCEPTED (analysed)")
         body = oc.teal.split("\n", 1)[-1]
         if body in seen:
             continue
@@ -130,11 +132,51 @@ def shrinks(case):
     return case_shrinks(case)
 
 
+def illtyped_statements(draw):
+    """statements whose parts have the wrong TealType (a value where nothing may be left on the stack, nothing where a
+    value is needed). PyTeal must refuse them; if one is accepted, the emitted code is analysed like any other program."""
+    ctr = "zz"
+    cond = ["bin", "Lt", ["load", ctr], ["int", 2]]
+    inc = ["store", ctr, ["nary", "Add", [["load", ctr], ["int", 1]]]]
+    val = draw(st.sampled_from([["int", 0], ["load", ctr], ["txn", "sender"], ["bytes", "00"]]))
+    k = draw(st.integers(0, 9))
+    if k == 0:
+        return "for-start-is-a-value", ["for", val, cond, inc, ["pop", ["int", 1]]]
+    if k == 1:
+        return "for-step-is-a-value", ["seq", [["store", ctr, ["int", 0]], ["for", ["nop"], cond, ["seq", [inc, val]], ["pop", ["int", 1]]]]]
+    if k == 2:
+        return "for-body-is-a-value", ["for", ["store", ctr, ["int", 0]], cond, inc, val]
+    if k == 3:
+        return "while-body-is-a-value", ["seq", [["store", ctr, ["int", 0]], ["while", cond, ["seq", [inc, val]]]]]
+    if k == 4:
+        return "seq-middle-is-a-value", ["seq", [val, ["pop", ["int", 1]]]]
+    if k == 5:
+        return "if-arms-differ", ["pop", ["if", ["int", 1], ["int", 1], ["pop", ["int", 2]], "fn"]]
+    if k == 6:
+        return "if-then-value-without-else", ["if", ["int", 1], val, None, "then"]
+    if k == 7:
+        return "cond-arms-differ", ["cond", [[["int", 0], ["pop", ["int", 1]]], [["int", 1], val]]]
+    if k == 8:
+        return "assert-on-bytes", ["assert", [["bytes", "01"]], None]
+    return "store-of-nothing", ["store", ctr, ["pop", ["int", 1]]]
+
+
 @st.composite
 def case_strategy(draw, tier):
     case = draw(c20.case_strategy(tier))
     mode = case["recipe"].get("mode", "app")
     case["ctxs"] = [draw(gen.one_context(mode)).to_json() for _ in range(2)]
+    r = case["recipe"]
+    if draw(st.integers(0, 7)) == 0 and r["main"][0] == "seq" and len(r["main"][1]) < 200:
+        why, stmt = illtyped_statements(draw)
+        r = dict(r, vars=dict(r["vars"], zz={"t": "U", "slot": None}))
+        items = list(r["main"][1])
+        pos = draw(st.integers(0, max(0, len(items) - 1)))
+        items = [["store", "zz", ["int", 0]]] + items[:pos] + [stmt] + items[pos:]
+        r["main"] = ["seq", items]
+        r["illtyped"] = why
+        r["anytype"] = True  # no dynamic claim for these
+        case["recipe"] = r
     return case
 
 
@@ -153,6 +195,8 @@ def shard(tier, seedv, k, n, col: Collector):
         col.case()
         recipe = case["recipe"]
         col.cls("gen:" + ("degenerate" if recipe.get("degenerate") else ("sub" if recipe.get("routines") else "core")))
+        if recipe.get("illtyped"):
+            col.cls("ill-typed statement inserted:" + recipe["illtyped"])
         res = judge_recipe(case, col)
         for b, d in res:
             col.fail(b, d, case)
